@@ -6,6 +6,7 @@
 //    copy (`c11 freshimpl` must be 1).
 #include "common.hpp"
 #include "frag.hpp"
+#include "verif_seed.hpp"
 #include "ccl/semantic/RSModel.h"
 #include <algorithm>
 #include <map>
@@ -232,7 +233,7 @@ int main() {
   vh::Rng rng(vh::seedFromEnv());
   const bool deep = vh::thorough();
   const int HF = deep ? 2500 : 250, HG = deep ? 1500 : 150;
-  for (int h = 0; h < HF; ++h) { vh::Rng sub(rng.next()); vh::forkedEmit([&] { fragmentHistory(sub, deep ? 35 : 25); }, "c11 crash"); }
-  for (int h = 0; h < HG; ++h) { vh::Rng sub(rng.next()); vh::forkedEmit([&] { generalHistory(sub, deep ? 35 : 25); }, "c11 crash"); }
+  for (int h = 0; h < HF; ++h) { const auto cs = rng.next(); vh::Rng sub(cs); vh::forkedEmit([&] { ccl::verif::Seed(static_cast<uint32_t>(cs)); fragmentHistory(sub, deep ? 35 : 25); }, "c11 crash"); }
+  for (int h = 0; h < HG; ++h) { const auto cs = rng.next(); vh::Rng sub(cs); vh::forkedEmit([&] { ccl::verif::Seed(static_cast<uint32_t>(cs)); generalHistory(sub, deep ? 35 : 25); }, "c11 crash"); }
   return 0;
 }
